@@ -80,6 +80,33 @@ def del_sites():
     return out
 
 
+def one_sites():
+    """every `+ 1` / `- 1` / `+= 1` / `-= 1` of the library that reaches MIR as an Add/Sub with the constant 1: the 1 becomes 0"""
+    from sa import mir
+    F = mir.Facts("default")
+    lines = {}
+    for f in lib_fns(F):
+        if f.file.startswith("/"):
+            continue
+        for b in f.blocks:
+            if b.cleanup:
+                continue
+            for st in b.stmts:
+                if st.k == "assign" and st.rv.k == "bin" and st.rv.op.startswith(("Add", "Sub")) and any(o.is_const() and o.const_val() == 1 for o in st.rv.ops):
+                    lines.setdefault((f.file, st.ln), f.short)
+    out = []
+    for (file, ln), fn in sorted(lines.items()):
+        src = open(os.path.join(REPO, file)).read().split("\n")
+        if not ln or ln > len(src):
+            continue
+        t = src[ln - 1]
+        if re.search(r"metrics|tracing|trace!|^\s*//", t):
+            continue
+        for k, m in enumerate(re.finditer(r"([+-]=?) 1\b(?!\.)", t)):
+            out.append({"name": "%s:%d#%d" % (file, ln, k), "file": file, "line": ln, "old": t, "new": t[:m.start()] + m.group(1) + " 0" + t[m.end():], "fn": fn})
+    return out
+
+
 def run_variant(v):
     scr = tempfile.mkdtemp(prefix="verif-sweep.", dir="/var/tmp")
     wt = os.path.join(scr, "wt")
@@ -117,7 +144,7 @@ if __name__ == "__main__":
     jobs = int(sys.argv[2]) if len(sys.argv) > 2 else 2
     for i in range(jobs):
         SLOTS.put(i)          # slot 0 shares /verif/.work/target
-    sites = {"cmp": cmp_sites, "del": del_sites}[kind]()
+    sites = {"cmp": cmp_sites, "del": del_sites, "one": one_sites}[kind]()
     if len(sys.argv) > 3:
         sites = [s for s in sites if re.search(sys.argv[3], s["name"])]
     print("%d variants" % len(sites), flush=True)
